@@ -22,7 +22,6 @@ Reading guide.
   `arith_poly.rs` over abstract coefficient operations `Ops α`; `Hom o φ` says that `φ` maps them to the
   operations of a commutative ring (`natOps_hom`: residues modulo `n` to `ZMod n`).
 * NOT proved (tied to the schoolbook specification by the correspondence and oracle streams only):
-  the Karatsuba routine inside `FInt::mul` (the model takes the exact product of the word vectors),
   `MultiZmodP::ntt_inplace` at word level (`convolve_modn_ntt` is the exact convolution inside the
   `arith_poly` models), the branch `|a| ≥ n` of `Poly::roots_eval`, `mul_fft`.
 -/
@@ -244,8 +243,7 @@ values back: for `2^m ≤ 256N` words below `2^(64N)` no panic site is reached (
 `u32`, shifts within range, all `debug_assert!(is_reduced)`) and entry `i` is
 `(Σ_{a+b ≡ i (mod 2^m)} x_a·y_b) mod (2^(64N)+1)` in canonical form.
 Built on `fft_spec`/`mulfft_spec` below, i.e. on `dft_conv` instantiated in `ℤ/(2^(64N)+1)` with the
-root `√2^(256N/2^m)` (`root_half`). The only unproved ingredient is the Karatsuba routine inside
-`FInt::mul`, for which the model takes the exact product. -/
+root `√2^(256N/2^m)` (`root_half`), and on `fint_mul_karatsuba` for the products inside `FInt::mul`. -/
 theorem mulfft_exact (N a : Nat) (hNa : N = 2 ^ a) (hN : N ≤ 256) : ExactCyc N (cycFft N) :=
   cycFft_exact N a hNa hN
 
@@ -412,15 +410,30 @@ theorem root_half (N k : Nat) (hk : 0 < k) (hdvd : 2 ^ k ∣ 256 * N) :
   rw [this]
   exact Nat.modEq_zero_iff_dvd.2 (dvd_refl _)
 
-/-- **`FInt::mul` multiplies residues** (both `top = 1` shortcuts and the general branch
-`FInt(z[0], 0).sub(&FInt(z[1], 0))` on the two halves of the double-length product): on normal
-forms no panic site is reached, the result is a normal form and its residue is the product.
-`vz N x` is the residue of `x` in `ZMod (2^(64N)+1)`. The double-length product itself (a Karatsuba
-routine in the code) is taken exact by the model. -/
-theorem mul_spec {N : Nat} (x y : FI) (hN : 0 < N) (hx : WfN N x) (hy : WfN N y)
+/-- **The Karatsuba routine inside `FInt::mul` is the exact product of the word vectors** (`kmul`:
+`z.fill(0)`, `mulbasic` for `n ≤ 16` words with its `u128`/`u64` overflow checks, else split at `n/2`,
+`plo + phi` and `qlo + qhi` with their carries, the middle product with the carry corrections
+(`carryp & carryq`, the two conditional `_add_slices`), the low and high products in `tmp`, the two
+`_sub_slices`, `carrymid - (carrylo + carryhi)` and its `debug_assert!`, the two `_add_slices` of the
+recombination, the propagation of the carry of the low half added by commit b8c535f,
+`debug_assert!(carry2 == 0)`). For word vectors of `n` words each with `kOk f n` (halving stays even
+down to `≤ 16` words: every `n ≤ 16` and every power of two, `kOk_pow2`) and `|tmp| ≥ 4n`: no panic
+site is reached and the `2n` result words are `val p · val q`. -/
+theorem fint_mul_karatsuba (f tl : Nat) (p q : List Nat) (hk : kOk f p.length = true)
+    (hl : q.length = p.length) (ht : 4 * p.length ≤ tl) (wp : Wf p) (wq : Wf q) :
+    ∃ z, kmul f tl p q = some z ∧ z.length = 2 * p.length ∧ Wf z ∧ val z = val p * val q :=
+  kmul_spec f tl p q hk hl ht wp wq
+
+example : kmul 2 8 [W - 1, W - 1] [W - 1, W - 1] = some [1, 0, W - 2, W - 1] := by decide
+
+/-- **`FInt::mul` multiplies residues** (both `top = 1` shortcuts and the general branch: the word-level
+Karatsuba product `kmul`, then `FInt(z[0], 0).sub(&FInt(z[1], 0))`): on normal forms, for `N` in the
+Karatsuba domain, no panic site is reached, the result is a normal form and its residue is the
+product. `vz N x` is the residue of `x` in `ZMod (2^(64N)+1)`. -/
+theorem mul_spec {N : Nat} (x y : FI) (hN : 0 < N) (hk : kOk KFUEL N = true) (hx : WfN N x) (hy : WfN N y)
     (hnx : Norm x) (hny : Norm y) :
     ∃ r, mul x y = some r ∧ WfN N r ∧ Norm r ∧ vz N r = vz N x * vz N y :=
-  mul_spec' x y hN hx hy hnx hny
+  mul_spec' x y hN hk hx hy hnx hny
 
 example : mul ⟨[W - 1], 0⟩ ⟨[W - 1], 0⟩ = some ⟨[4], 0⟩ := by decide
 
@@ -442,15 +455,16 @@ theorem fft_spec {N : Nat} (hN : 0 < N) (d : FI) (fwd : Bool) (k : Nat) (xs : Li
 
 /-- **`mulfft` is the cyclic convolution modulo `2^(64N)+1`** (`dft_conv` instantiated by the
 word-level model): forward `fft` of both operands, `FInt::mul` pointwise, inverse `fft`; for `2^k`
-entries in normal form (`Good`), `k < 32`, `128·2^k·N < 2^32`, `2^k ∣ 128N` or `2^k = 256N`: no panic
+entries in normal form (`Good`), `N` in the Karatsuba domain, `k < 32`, `128·2^k·N < 2^32`, `2^k ∣ 128N` or
+`2^k = 256N`: no panic
 site, normal forms, and entry `m` has residue `Σ_a p1[a]·p2[(m - a) mod 2^k]`. -/
-theorem mulfft_spec {N : Nat} (hN : 0 < N) (d : FI) (k : Nat) (p1 p2 : List FI)
+theorem mulfft_spec {N : Nat} (hN : 0 < N) (hkk : kOk KFUEL N = true) (d : FI) (k : Nat) (p1 p2 : List FI)
     (h1 : p1.length = 2 ^ k) (h2 : p2.length = 2 ^ k) (g1 : Good N p1) (g2 : Good N p2)
     (hk : k < 32) (hb : 128 * 2 ^ k * N < 2 ^ 32) (hdiv : 2 ^ k ∣ 128 * N ∨ 2 ^ k = 256 * N) :
     ∃ out, mulfft N p1 p2 = some out ∧ out.length = 2 ^ k ∧ Good N out ∧
       ∀ m, m < 2 ^ k → vz N (out.getD m d) =
         Ymq.Dft.cyc (2 ^ k) (fun i => vz N (p1.getD i d)) (fun i => vz N (p2.getD i d)) m :=
-  Ymq.FInt.mulfft_spec hN d k p1 p2 h1 h2 g1 g2 hk hb hdiv
+  Ymq.FInt.mulfft_spec hN hkk d k p1 p2 h1 h2 g1 g2 hk hb hdiv
 
 /-- `N = 1`, length 2: `(3 + 5X)(7 + 11X) mod (X² - 1) = 76 + 68X` -/
 example : mulfft 1 [⟨[3], 0⟩, ⟨[5], 0⟩] [⟨[7], 0⟩, ⟨[11], 0⟩] = some [⟨[76], 0⟩, ⟨[68], 0⟩] := by decide
